@@ -26,7 +26,7 @@
  *     source pointer/type/count, destination pointer/type/count;
  *   - the final content of the local tiles of the collection.
  * Output (one block per rank, every line prefixed by "<rank>| ", merged and canonicalised by checks/C18.py):
- *   T <cls> <k> <r> <ptr> <dtt> <hex>      X <srcptr> <srctype> <srccount> <dstptr> <dsttype> <dstcount>
+ *   T <cls> <k> <r> <ptr> <dtt> <hex>  (flow A; U ...: second data flow B)      X <srcptr> <srctype> <srccount> <dstptr> <dsttype> <dstcount>
  *   D <idx> <hex>      N <allocations>     END rc=0
  * pointers are printed as  D<idx>+<off>  (inside tile idx of the collection),
  * a<n>+<off> (inside the n-th arena allocation of this rank) or  ?.
@@ -154,19 +154,27 @@ static char *rs_hex(const void *p, size_t n) {
     return s;
 }
 
-void rs_body(parsec_task_t *t, int cls, int k, int r, parsec_data_copy_t *copy, int modify) {
-    (void)t;
+static void rs_log_copy(char kind, int cls, int k, int r, parsec_data_copy_t *copy) {
     void *A = copy ? PARSEC_DATA_COPY_GET_PTR(copy) : NULL;
     pthread_mutex_lock(&rs_lock);
     if (rs_nlog >= RS_MAXLOG) { fprintf(stderr, "reshape_driver: log overflow\n"); abort(); }
     rs_ent_t *e = &rs_log[rs_nlog++];
-    e->kind = 'T'; e->cls = cls; e->k = k; e->r = r;
+    e->kind = kind; e->cls = cls; e->k = k; e->r = r;
     pthread_mutex_unlock(&rs_lock);
     if (NULL == A) { strcpy(e->ptr, "NULL"); strcpy(e->dtt, "NULL"); e->hex = strdup(""); return; }
     rs_ptr_name(A, e->ptr, sizeof(e->ptr));
     snprintf(e->dtt, sizeof(e->dtt), "%s", rs_dtt_name(copy->dtt));
     e->hex = rs_hex(A, rs_tile_bytes);
-    if (modify) { unsigned char *B = (unsigned char *)A; for (size_t b = 0; b < rs_tile_bytes; b++) B[b] ^= (unsigned char)(cls + 1); }
+}
+void rs_body2(parsec_task_t *t, int cls, int k, int r, parsec_data_copy_t *copy, int modify, parsec_data_copy_t *copyb) {
+    (void)t;
+    rs_log_copy('T', cls, k, r, copy);
+    if (copyb != (parsec_data_copy_t *)-1) rs_log_copy('U', cls, k, r, copyb);
+    void *A = copy ? PARSEC_DATA_COPY_GET_PTR(copy) : NULL;
+    if (modify && A) { unsigned char *B = (unsigned char *)A; for (size_t b = 0; b < rs_tile_bytes; b++) B[b] ^= (unsigned char)(cls + 1); }
+}
+void rs_body(parsec_task_t *t, int cls, int k, int r, parsec_data_copy_t *copy, int modify) {
+    rs_body2(t, cls, k, r, copy, modify, (parsec_data_copy_t *)-1);
 }
 
 /* every local datatype conversion of PaRSEC is an MPI_Sendrecv on a private communicator
@@ -238,7 +246,7 @@ int main(int argc, char **argv) {
         fprintf(out, "%d| RANK %d of %d\n", R, rs_rank, rs_nranks);
         for (int i = 0; i < rs_nlog; i++) {
             rs_ent_t *e = &rs_log[i];
-            if (e->kind == 'T') fprintf(out, "%d| T %d %d %d %s %s %s\n", R, e->cls, e->k, e->r, e->ptr, e->dtt, e->hex);
+            if (e->kind == 'T' || e->kind == 'U') fprintf(out, "%d| %c %d %d %d %s %s %s\n", R, e->kind, e->cls, e->k, e->r, e->ptr, e->dtt, e->hex);
             else fprintf(out, "%d| X %s %s %ld %s %s %ld\n", R, e->ptr, e->dtt, e->c1, e->ptr2, e->dtt2, e->c2);
         }
         for (int k = 0; k < rs_dc->n; k++) if (rs_dc->mem[k]) { char *h = rs_hex(rs_dc->mem[k], rs_tile_bytes); fprintf(out, "%d| D %d %s\n", R, k, h); free(h); }
